@@ -1176,8 +1176,8 @@ func ruleCRASH4(c *Ctx) {
 			})
 		}
 	})
-	if nEnum < 5 || nType < 2 {
-		c.unres(rule, "closed-switches", "", "found %d enum switches and %d type switches with a panicking default; 8 and 3 were confirmed by hand", nEnum, nType)
+	if nEnum < 5 || nType < 1 {
+		c.unres(rule, "closed-switches", "", "found %d enum switches and %d type switches with a panicking default; 8 and 1 were confirmed by hand (two type switches went away with fix 15894c4)", nEnum, nType)
 	}
 }
 
